@@ -70,7 +70,7 @@ async def run_async(rec, cfg, items, uni=0):
         state = {"resp": lambda req: []}
         api = await apidrv.AsyncApi.create(rec, cfg, lambda req: state["resp"](req), timeout=1.0)
         state["resp"] = walks.scripted_responder(agent, api.cfgref, script, UNIVERSES[(k + uni) % 2])
-        await walks.walk_async(api, op, BASE_TEXT, 3 if op == "getbulk" else None, limit=40)
+        await walks.walk_async(api, op, BASE_TEXT, 3 if op == "getbulk" else None, limit=40, style=walks.STYLES[len(json.dumps(script)) % 4])
         api.close()
         runs.append((a, rec.n, dict(kind="async", ver=cfg.ver, op=op, script=script, universe=(k + uni) % 2)))
     return runs
@@ -84,7 +84,7 @@ def run_sync(rec, cfg, items, uni=0):
         state = {"resp": lambda req: []}
         api = apidrv.SyncApi(rec, cfg, lambda req: state["resp"](req), timeout=1.0)
         state["resp"] = walks.scripted_responder(agent, api.cfgref, script, UNIVERSES[(k + uni) % 2])
-        walks.walk_sync(api, op, BASE_TEXT, 3 if op == "getbulk" else None, limit=40)
+        walks.walk_sync(api, op, BASE_TEXT, 3 if op == "getbulk" else None, limit=40, style=walks.STYLES[(len(json.dumps(script)) + 1) % 4])
         api.close()
         runs.append((a, rec.n, dict(kind="sync", ver=cfg.ver, op=op, script=script, universe=(k + uni) % 2)))
     return runs
